@@ -21,7 +21,8 @@ RULE = (
     "Asia/Kolkata, Australia/Lord_Howe, Pacific/Chatham each evaluate the same generated case - time-scale cases (ticks, tick "
     "texts, nice domain, mapped positions, inverse, domain, copy; domains and counts as C14-C16), calendar cases (floor, ceil, "
     "round, offset for all seven units, range, day of year; instants as C17) and date/datetime timelines (SVG and TikZ exports; "
-    "specs as C07, time-only data excluded) - with a share of instants placed within two days of a daylight-saving transition. "
+    "specs as C07, time-only data excluded) - with a share of instants placed within two days of a daylight-saving transition (60 % of those within two hours of a real "
+    "transition of New York, Lord Howe or Chatham read from the installed zoneinfo; as lower or as upper end of a scale domain). "
     "All five answers must be byte-identical. Non-trivial: every case (India's +5:30 offset is in the set); additionally counted: "
     "cases within two days of a DST transition of one of the zones. distinct = distinct spec hash."
 )
